@@ -31,7 +31,7 @@ func init() {
 		Run:            run,
 		MinEvaluations: map[string]int{"quick": 200000, "thorough": 2000000},
 		MinNontrivial:  map[string]int{"quick": 2000, "thorough": 20000},
-		RequiredObs:    []string{"op:AddVertex", "op:RemoveVertex", "op:RemoveVertex(non-last)", "op:AddEdge", "op:RemoveEdge", "op:Copy", "op:InducedSubgraph", "mutation_after_copy_or_induced", "addvertex_reusing_backing_array", "large_histories(n crossing 64/128)", "induced_shape_histories", "start_graphs_with_nonunit_edge_bytes_and_dirty_spare_capacity", "argument_slice_object_passed_again", "argument_slice_overwritten_by_caller_after_call", "returned_slices_overwritten_then_reobserved"},
+		RequiredObs:    []string{"op:AddVertex", "op:RemoveVertex", "op:RemoveVertex(non-last)", "op:AddEdge", "op:RemoveEdge", "op:Copy", "op:InducedSubgraph", "mutation_after_copy_or_induced", "addvertex_reusing_backing_array", "large_histories(n crossing 64/128)", "induced_shape_histories", "start_graphs_with_nonunit_edge_bytes_and_dirty_spare_capacity", "argument_slice_object_passed_again", "argument_buffer_refilled_in_place_and_passed_again", "argument_slice_overwritten_by_caller_after_call", "returned_slices_overwritten_then_reobserved"},
 	})
 }
 
@@ -95,8 +95,9 @@ type runner struct {
 	// argument slices handed to the library: a list with the same contents is handed over as the SAME slice object
 	// again (a caller reusing its neighbour list), all other argument slices are overwritten by the caller after the
 	// call (a caller recycling its buffer).  Neither may affect the graphs.
-	pool map[string][]int
-	step int
+	pool     map[string][]int
+	recycled map[int][]int
+	step     int
 }
 
 // arg returns the slice to pass for list and whether it is a pooled (reused, never overwritten) object.
@@ -113,6 +114,22 @@ func (r *runner) arg(list []int, step int) ([]int, bool) {
 	if step%2 == 0 && len(list) > 0 {
 		r.pool[key] = cp
 		return cp, true
+	}
+	if step%4 == 1 && len(list) > 0 {
+		// ONE buffer per length that the caller refills in place for call after call (same address, same length,
+		// other contents each time; it is overwritten after every call like any non-pooled argument)
+		if r.recycled == nil {
+			r.recycled = map[int][]int{}
+		}
+		b, ok := r.recycled[len(list)]
+		if !ok {
+			b = make([]int, len(list))
+			r.recycled[len(list)] = b
+		} else {
+			r.c.Obs("argument_buffer_refilled_in_place_and_passed_again", 1)
+		}
+		copy(b, list)
+		return b, false
 	}
 	return cp, false
 }
@@ -235,6 +252,17 @@ func (r *runner) apply(key string, ts *[]*tracked, o op) (what, observed string)
 		l2 := l1
 		if !p1 {
 			l2 = append([]int(nil), o.list...)
+			if r.step%4 == 1 && len(o.list) > 0 {
+				// the sparse graph gets a recycled buffer of its own (same address and length as last time)
+				k := -len(o.list)
+				b, ok := r.recycled[k]
+				if !ok {
+					b = make([]int, len(o.list))
+					r.recycled[k] = b
+				}
+				copy(b, o.list)
+				l2 = b
+			}
 		}
 		if pi := c.Call(key, func() { nt.d = t.d.InducedSubgraph(l1) }); pi != nil {
 			return "dense|InducedSubgraph|panic@" + engine.SiteNoLine(pi.Site), pi.String()
